@@ -14,6 +14,8 @@ const Cfg cfgs[] = {
   {"set/less/lfrc", mk<SetAd<Set<rc::LFRC>>>},
   {"set/less/qsbr", mk<SetAd<Set<rc::QSBR>>>},
   {"set/less/debra0", mk<SetAd<Set<rc::DEBRA<0>>>>},
+  {"set/coarse_less/ebr0", mk<SetAd<Set<rc::EBR<0>, CoarseLess>, 1>>},
+  {"set/coarse_less/hp_s8_0_0", mk<SetAd<Set<rc::HP_S<8, 0, 0>, CoarseLess>, 1>>},
   {"set/less/backoff_exp2/ebr0", mk<SetAd<xenium::harris_michael_list_based_set<int, xp::reclaimer<rc::EBR<0>>, xp::backoff<xenium::exponential_backoff<2>>>>>},
 };
 HMHarness h("hmlist", cfgs, sizeof(cfgs) / sizeof(cfgs[0]));
